@@ -130,7 +130,7 @@ def run_conv(case, feat, key):
     A64, lam = RA.spd(case["fam"], n, case["cond"], case["scale"], f"A{case['fam']}{n}", env.SEED, b)
     A = A64.to(dt)
     A64 = A.double()  # the system actually handed to CG
-    ncols = 1 if case["cols"] == "generic" else 5
+    ncols = 1 if case["cols"] == "generic" else 6
     B = torch.randn(*b, n, ncols, generator=RA.gen(f"B{n}{ncols}", env.SEED), dtype=torch.float64)
     evecs = torch.linalg.eigh(A64)[1]
     if case["cols"] == "mixed":
@@ -139,6 +139,7 @@ def run_conv(case, feat, key):
         B[..., 2] *= 1e6  # -> 1e-6 norm
         B[..., 3] *= 1e8  # huge norm
         B[..., 4] = evecs[..., :, 0]  # an eigenvector: converges in one step, must then freeze
+        B[..., 5] *= 1e-8  # tiny but well above the is-zero threshold (1e-10), below single-precision machine epsilon
     B = B.to(dt)
     B64 = B.double()
     Xs = torch.linalg.solve(A64, B64)
